@@ -231,9 +231,22 @@ def run_shard(spec):
     probe_heights = sorted({e * ref.HALVING_INTERVAL + d for e in list(range(0, 34)) + [62, 63, 64, 65, 100, 4090] for d in (-1, 0, 1)
                             if 0 < e * ref.HALVING_INTERVAL + d <= 0xFFFFFFFF}
                            | {1, 2, 0xFFFFFFFF} | {rng.randrange(1, 1 << 32) for _ in range(300)})
+    def reward_lists(h):
+        sub = ref.subsidy(h)
+        yield [(sub, key)], True
+        yield [(sub + 1, key)], False
+        # the bound is on the SUM of the reward's outputs, however it is split
+        yield [(sub, key), (1, key)], False
+        yield [(sub, key), (sub, key)], sub == 0
+        if sub >= 2:
+            yield [(sub // 2, key), (sub - sub // 2, key)], True
+            yield [(sub // 2 + 1, key), (sub - sub // 2, key)], False
+            yield [(1, key)] * 3 + [(sub - 2, key)], False
+        yield [(0, key), (sub, key)], True
     for h in probe_heights:
-        for delta in (0, 1):
-            cb = ref.RTx([(ref.ZERO32, 0, (ref.SIG_CB, h, b""))], [(ref.subsidy(h) + delta, key)])
+        for outs, expected in reward_lists(h):
+            delta = 0 if expected else 1
+            cb = ref.RTx([(ref.ZERO32, 0, (ref.SIG_CB, h, b""))], outs)
             try:
                 real_cb = dt.Transaction.deserialize(cb.enc())
             except Exception:
@@ -251,10 +264,10 @@ def run_shard(spec):
                 ok = True
             except Exception:
                 ok = False
-            if ok != (delta == 0):
-                viol.append(_viol("validator-enforces-another-schedule", "height %d: a reward of subsidy(%d)%s = %d is %s by the reward "
-                                  "check" % (h, h, "+1" if delta else "", ref.subsidy(h) + delta, "accepted" if ok else "refused"),
-                                  {"kind": "edges"}))
+            if ok != expected:
+                viol.append(_viol("validator-enforces-another-schedule", "height %d (subsidy %d): a reward with outputs %s (total %d) is %s "
+                                  "by the reward check" % (h, ref.subsidy(h), [v for v, _k in outs], sum(v for v, _k in outs),
+                                                           "accepted" if ok else "refused"), {"kind": "edges"}))
         if len(viol) > 8:
             break
     # docs/params.md
@@ -290,7 +303,7 @@ def finalize(m, tier):
                 "with subsidy(h) and subsidy(h)+1 at every era boundary +-1 and random heights",
         "floors": [("heights_called", c.get("heights_called", 0), NONZERO_HEIGHTS),
                    ("nonzero_heights", c.get("nonzero_heights", 0), NONZERO_HEIGHTS),
-                   ("reward_checks_at_probe_heights", c.get("reward_checks_at_probe_heights", 0), 500),
+                   ("reward_checks_at_probe_heights", c.get("reward_checks_at_probe_heights", 0), 2000),
                    ("transaction_limit_cases", c.get("transaction_limit_cases", 0), 100)],
         "extra": {"sum_of_subsidies_observed": total},
     }
